@@ -1269,6 +1269,27 @@ impl World {
             marginfi::instruction::TransferToNewAccount {}.data(),
         )
     }
+    /// PDA of a marginfi account created by `transfer_to_new_account_pda` / `marginfi_account_initialize_pda`
+    pub fn macct_pda(&self, authority: &Pubkey, index: u16) -> Pubkey {
+        Pubkey::find_program_address(&[b"marginfi_account", self.group.as_ref(), authority.as_ref(), &index.to_le_bytes(), &0u16.to_le_bytes()], &marginfi::ID).0
+    }
+    pub fn ix_transfer_account_pda(&self, old: Pubkey, signer: Pubkey, new_authority: Pubkey, index: u16) -> Instruction {
+        mfi_ix(
+            marginfi::accounts::TransferToNewAccountPda {
+                group: self.group,
+                old_marginfi_account: old,
+                new_marginfi_account: self.macct_pda(&new_authority, index),
+                authority: signer,
+                fee_payer: signer,
+                new_authority,
+                global_fee_wallet: self.fee_wallet,
+                instructions_sysvar: solana_program::sysvar::instructions::ID,
+                system_program: system_program::ID,
+            }
+            .to_account_metas(Some(true)),
+            marginfi::instruction::TransferToNewAccountPda { account_index: index, third_party_id: None }.data(),
+        )
+    }
     pub fn ix_close_bank(&self, bi: usize, signer: Pubkey) -> Instruction {
         mfi_ix(
             marginfi::accounts::LendingPoolCloseBank { group: self.group, bank: self.banks[bi].key, admin: signer }.to_account_metas(Some(true)),
